@@ -19,6 +19,7 @@ Definition payload_of_sx (x : sx) : option bytes :=
   match x with
   | SB b => Some b
   | SL [t; SN seed; SN len] => if is_sym "pat" t then Some (pat_bytes (N.to_nat len) seed 0) else None
+  | SL [t; SN len] => if is_sym "zeros" t then Some (repeat 0 (N.to_nat len)) else None   (* only its length matters *)
   | _ => None
   end.
 
